@@ -392,11 +392,21 @@ func stream(rt *rapid.T) (all []byte, bounds []int) {
 	p := g.Program(2, 4)
 	p.Set.ErrMarshal = ""
 	res := lp.Run(p)
+	var evs [][]byte
 	for _, d := range res.Dests {
 		for _, w := range d {
-			all = append(all, w.Data...)
-			bounds = append(bounds, len(all))
+			evs = append(evs, w.Data)
 		}
+	}
+	// one stream in three is stretched beyond two decoder read buffers (2 x 4096 bytes) by
+	// repeating its events, so that items straddle the buffer refill boundaries
+	target := 0
+	if len(evs) > 0 && rapid.IntRange(0, 2).Draw(rt, "stretch") == 0 {
+		target = rapid.IntRange(4000, 9500).Draw(rt, "target")
+	}
+	for i := 0; i < len(evs) || (len(all) < target && len(evs) > 0 && i < 4000); i++ {
+		all = append(all, evs[i%len(evs)]...)
+		bounds = append(bounds, len(all))
 	}
 	return
 }
@@ -456,11 +466,12 @@ func checkCuts(all []byte, bounds []int) *cutFailure {
 	}
 	for k := 0; k <= len(all); k++ {
 		if len(all) > 6000 {
-			// long streams: every offset within 40 bytes of an event boundary or of a 4096-byte
-			// buffer boundary, and every 97th offset elsewhere
+			// long streams: every offset within 40 bytes of a 4096-byte buffer boundary, within 2 bytes
+			// of a sample of event boundaries (all those near a buffer boundary or the end), and every
+			// 97th offset elsewhere
 			near := k%4096 < 40 || k%4096 > 4056
 			for _, b := range bounds {
-				if k-b < 40 && b-k < 40 {
+				if k-b <= 2 && b-k <= 2 && (b%7 == 0 || b > len(all)-300 || b%4096 < 200 || b%4096 > 3900) {
 					near = true
 				}
 			}
